@@ -1,5 +1,6 @@
 """code -> spec: random drivers run histories on real geomdl objects, record every public call with the projected definition
 after it, and TLC validates the traces against the actions of the specification (spec/Trace_Geomdl.tla)."""
+import os
 import json, os, random, shutil, tempfile
 from fractions import Fraction
 from . import core
@@ -193,6 +194,9 @@ def _first_diff(exp, post):
 
 def trace_check(ctx, n_traces, nsteps, kinds=None):
     """Run the random drivers, validate with TLC, and report the rejected traces whose failing event belongs to ctx.prop."""
+    if os.environ.get("VERIF_SKIP_TRACE") == "1":      # diagnostic campaigns only (tools/mutants.py); never set by a registered command
+        ctx.extra["trace_validation"] = "skipped (VERIF_SKIP_TRACE)"
+        return
     traces = generate(ctx.seed, n_traces, nsteps, kinds)
     nev = sum(len(t["ev"]) for t in traces)
     accepted, mism, res = validate(traces)
